@@ -78,6 +78,8 @@ class Scheduler:
         self.overrun: str | None = None
         self.main_preempted_ns = 0
         self.lock_contentions = 0
+        self.line_log: list | None = None
+        self.line_filter = None
         self.abandoned_yields = 0
         self.quantum = 5
         clock.sleeper = self.sleep
@@ -108,6 +110,8 @@ class Scheduler:
 
     def _local_sut(self, frame, event, arg):
         if event == "line":
+            if self.line_log is not None and (self.line_filter is None or self.line_filter()):
+                self.line_log.append((frame.f_code.co_filename, frame.f_lineno))
             self.yield_point("sut")
         return self._local_sut
 
